@@ -1336,7 +1336,8 @@ def read_loop_keeps_every_element(ctx):
                 if not some_t:
                     continue
                 n += 1
-                rr = fb.reach(some_t[0], avoid_blocks=[x.b for x in adds])
+                # inside this loop only: leaving it (an error exit, the end of an enclosing iteration) is not a next iteration
+                rr = fb.reach(some_t[0], avoid_blocks=[x.b for x in adds] + [b2 for b2 in range(fb.n) if b2 not in L])
                 ctx.check(c.b not in rr, name, 'read: every element read is stored',
                           'in read of %s the loop at line %d can go on to its next iteration without storing the element it has just '
                           'read (the insertion at line %d is conditional): well-formed elements are dropped on reload'
